@@ -34,7 +34,16 @@ pub struct HSchema {
     pub body: Field,
     pub tag: Field,
     pub pad: Field,
+    /// sort-key twins of `val` in the other sortable types (present iff `val` is present and
+    /// ordered like `val`)
+    pub uval: Field,
+    pub fval: Field,
+    pub dval: Field,
+    pub sval: Field,
+    pub bval: Field,
 }
+
+pub const SORT_FIELDS: [&str; 6] = ["val", "uval", "fval", "dval", "sval", "bval"];
 
 pub fn hschema() -> HSchema {
     let mut b = Schema::builder();
@@ -44,6 +53,11 @@ pub fn hschema() -> HSchema {
     let body = b.add_text_field("body", TEXT | STORED);
     let tag = b.add_text_field("tag", STRING | STORED | FAST);
     let pad = b.add_bytes_field("pad", STORED);
+    let uval = b.add_u64_field("uval", FAST | STORED);
+    let fval = b.add_f64_field("fval", FAST | STORED);
+    let dval = b.add_date_field("dval", FAST | STORED);
+    let sval = b.add_text_field("sval", STRING | FAST | STORED);
+    let bval = b.add_bytes_field("bval", FAST | STORED);
     HSchema {
         schema: b.build(),
         id,
@@ -52,6 +66,11 @@ pub fn hschema() -> HSchema {
         body,
         tag,
         pad,
+        uval,
+        fval,
+        dval,
+        sval,
+        bval,
     }
 }
 
@@ -72,6 +91,11 @@ impl MDoc {
         d.add_u64(hs.grp, self.grp);
         if let Some(v) = self.val {
             d.add_i64(hs.val, v);
+            d.add_u64(hs.uval, (v + 1_000) as u64);
+            d.add_f64(hs.fval, v as f64 * 0.5);
+            d.add_date(hs.dval, tantivy::DateTime::from_timestamp_secs(v * 3600));
+            d.add_text(hs.sval, format!("s{:06}", v + 100_000));
+            d.add_bytes(hs.bval, &((v + 100_000) as u32).to_be_bytes());
         }
         let body: Vec<&str> = self.body.iter().map(|&w| WORDS[w as usize]).collect();
         d.add_text(hs.body, body.join(" "));
@@ -726,7 +750,7 @@ impl ExecCfg {
             merge_policy: rng.bool(),
             sort: if allow_sort && rng.chance(1, 4) {
                 Some((
-                    "val".to_string(),
+                    rng.pick(&SORT_FIELDS).to_string(),
                     if rng.bool() { Order::Asc } else { Order::Desc },
                 ))
             } else {
